@@ -4,6 +4,7 @@ import (
 	"context"
 	"errors"
 	"fmt"
+	"github.com/libp2p/go-libp2p/x/verifhook"
 	"sync"
 	"time"
 
@@ -106,6 +107,7 @@ func (c *Conn) doClose(errCode network.ConnErrorCode) {
 	// The s.refs ref added in addConn is released here.
 	go func() {
 		defer c.swarm.refs.Done()
+		verifhook.AtArg("swarm.doClose.beforeRemoveConn", c)
 		c.swarm.connectionEventsEmitter.RemoveConn(c)
 	}()
 }
